@@ -251,14 +251,21 @@ pub const THOROUGH_SHAPE: Shape = Shape {
 pub fn program_case(t: &Tables, sh: Shape) -> BoxedStrategy<VmCase> {
     let ops = t.all_ops();
     let exec = prop_oneof![
-        prop::collection::vec(prog(ops.clone(), sh.depth, sh.nodes), 0..=sh.top_len),
-        genes(ops, sh.genes).prop_map(|g| parse_genes(&g, model_opens)),
+        9 => prop::collection::vec(prog(ops.clone(), sh.depth, sh.nodes), 0..=sh.top_len),
+        9 => genes(ops.clone(), sh.genes).prop_map(|g| parse_genes(&g, model_opens)),
+        // one big flat block (and whatever follows it): bulk unfolding far beyond the usual sizes
+        1 => (prop::collection::vec(leaf(ops.clone()).prop_map(Prog::I), 70..260), prop::collection::vec(leaf(ops).prop_map(Prog::I), 0..3)).prop_map(|(big, mut rest)| {
+            let mut v = vec![Prog::B(big)];
+            v.append(&mut rest);
+            v
+        }),
     ];
+    let big = sh.init * 40;
     (
         exec,
-        prop::collection::vec(int_val(), 0..=sh.init),
-        prop::collection::vec(float_val(), 0..=sh.init),
-        prop::collection::vec(any::<bool>(), 0..=sh.init),
+        prop_oneof![12 => prop::collection::vec(int_val(), 0..=sh.init), 1 => prop::collection::vec(int_val(), 60..=big)],
+        prop_oneof![12 => prop::collection::vec(float_val(), 0..=sh.init), 1 => prop::collection::vec(float_val(), 60..=big)],
+        prop_oneof![12 => prop::collection::vec(any::<bool>(), 0..=sh.init), 1 => prop::collection::vec(any::<bool>(), 60..=big)],
         prop_oneof![
             3 => (20usize..80, 20usize..80, 20usize..80, 20usize..80),
             2 => (slack(), slack(), slack(), slack()),
